@@ -98,6 +98,7 @@ func DefaultHooks() []mapstructure.DecodeHookFunc {
 	return []mapstructure.DecodeHookFunc{
 		VariableInjectHook,
 		WholeNumberHook,
+		NumberRangeHook,
 		DebugHook,
 		TextUnmarshallerHook,
 		mapstructure.StringToTimeDurationHookFunc(),
